@@ -90,6 +90,19 @@ def cases(rng, tier):
                 b, _ = dns.encode_marked(q, rng, 0)
                 toks += ["D"] + dns.name_toks(SVC) + dns.name_toks(ME) + [b.hex()]
             out.append("STORE " + " ".join(toks))
+    # directed: DNS-SD service-type enumeration questions (RFC 6763 section 9) against SRV records at several depths, the root included
+    srvs = [r for r in P if r["rdata"][0] == "T" and r["rdata"][1] == "SRV"]
+    toks = []
+    for r in srvs:
+        toks += ["AA"] + dns.rr_toks(r)
+    toks += ["AA"] + dns.rr_toks({"name": SVC, "class": 1, "ttl": 120, "cf": False, "rdata": ("T", "PTR", [("N", ME)])})
+    for qn in ([b"_services", b"_dns-sd", b"_udp", b"local"], [b"_services", b"_dns-sd", b"_udp"], [b"_SERVICES", b"_DNS-SD", b"_UDP", b"local"],
+               [b"_services", b"_dns-sd", b"_udp", b"_tcp", b"local"]):
+        for qt in (12, 255, 33):
+            q = pC13.query_pkt(3, [{"name": qn, "qtype": qt, "qclass": rng.choice([1, 255]), "uni": False}])
+            b, _ = dns.encode_marked(q, rng, 0)
+            toks += ["D"] + dns.name_toks(SVC) + dns.name_toks(ME) + [b.hex()]
+    out.append("STORE " + " ".join(toks))
     # replies larger than 16 KiB: a store of address records under one service whose sorted order puts a two-new-label name
     # at offset 16384 - k, followed by a name sharing only its later suffix
     base = [b"_s", b"_tcp", b"local"]
